@@ -1,0 +1,16 @@
+//go:build verif
+
+package interp
+
+// VerifYield, when set, is called at goroutine boundaries of the interpreter
+// (background jobs, pipelines, process substitutions, here-document writers,
+// the wait builtin) with the name of the point. It only exists in builds with
+// the "verif" tag, where a verification harness uses it to perturb goroutine
+// schedules; it must be set before any Runner is created and never changed.
+var VerifYield func(point string)
+
+func verifYield(point string) {
+	if f := VerifYield; f != nil {
+		f(point)
+	}
+}
